@@ -310,6 +310,8 @@ class ProgGen:
                       const=t.bool(0.5, "const"))
             if fresh_sig(f):
                 c.methods.append(f)
+        if self.f.get("ref_returns", True) and t.bool(0.2, "ref-return"):
+            self.add_ref_return(c)
         for _ in range(t.small(2, "nstatic", p=0.4)):
             f = PFunc("static", t.pick(STATN, "sname"), self.gen_ret(allow_void=False, cls=c), self.args(2, cls=c))
             if fresh_sig(f):
@@ -327,6 +329,18 @@ class ProgGen:
                 pt = t.wpick(popts, "ptype")
                 c.props.append((pn, pt))
         return c
+
+    def add_ref_return(self, c, tag=""):
+        """a method returning the object itself by (const) reference, as its own class or as an ancestor"""
+        t = self.t
+        targets = [c] + [a for a in self.p.ancestors(c) if getattr(a, "tpl", None) is None]
+        tgt = t.pick(targets, "ref-target")
+        mode = t.pick(["cref", "cref", "ref"], "ref-mode")
+        name = ("self" if tgt is c else "as" + tgt.name) + ("Ref" if mode == "ref" else "") + tag
+        if any(m.name == name for m in c.methods):
+            return
+        c.methods.append(PFunc("method", name, PType("class", tgt.qname, mode),
+                               self.args(1, allow_class=False), const=(mode == "cref" and t.bool(0.7, "ref-const"))))
 
     def program(self):
         t = self.t
@@ -377,6 +391,8 @@ class ProgGen:
             c.methods.append(PFunc("method", "level%d" % lvl, self.ret_type(False, c), self.args(2, cls=c),
                                    const=True))
             c.methods.append(PFunc("method", "shared", PType("prim", "int"), [], const=True))
+            if self.f.get("ref_returns", True):
+                self.add_ref_return(c, tag=str(lvl))
             prev = c
             made.append(c)
         root = made[0]
@@ -410,6 +426,8 @@ class ProgGen:
             if t.bool(0.5, "pchain-ctor2"):
                 d.ctors.append(PFunc("ctor", d.name, None, [PArg(PType("prim", "string"), "tag")]))
             d.methods.append(PFunc("method", "radius%d" % lvl, PType("prim", "double"), [], const=True))
+            if self.f.get("ref_returns", True):
+                self.add_ref_return(d, tag=str(lvl))
             d.statics.append(PFunc("static", "Unit", PType("class", d.qname, t.pick(["sptr", "val"], "pchain-ret")),
                                    [PArg(PType("prim", "int"), "n")]))
             self.p.functions.append((ns, PFunc("func", self.fresh(["makeDisc", "giveBlob", "newSquare"]),
@@ -875,6 +893,10 @@ def _ret_expr(r, e="e"):
     if r.mode == "sptr":
         return "std::shared_ptr<%s> rv = lib::ret_shared<%s>(\"%s\"); e.ret = lib::enc_obj(rv.get());" % (
             r.name, r.name, r.name)
+    if r.mode in ("cref", "ref"):
+        # a reference to the object itself (declared in the class or in a class derived from it): the wrapper
+        # must hand MATLAB a copy that it owns, never an alias of an object owned by another handle
+        return "%s rv = *this; e.ret = lib::enc_obj(&rv);" % r.cpp()
     return "%s rv{typename %s::LibTag()}; e.ret = lib::enc_obj(&rv);" % (r.name, r.name)
 
 
